@@ -148,6 +148,15 @@ def table() -> dict[str, Prop]:
              [RR.rule_chain, SW.rule_producers, RN.rule_raw, SW.rule_fanout, SW.rule_optkey, SW.rule_trig, SW.rule_gate, RN.rule_rendex],
              not_decided="identity of the token stream with an extension on vs off for all trigger-free inputs (decided is only that "
                          "no effect escapes the trigger test), and equality of env / HTML under inline_definitions / store_labels"))
+    from .rules import ref_rules as RF
+    reg(Prop("C16", "references act through env: the caller's env object reaches every parser state by identity (ENV); every access to "
+             "env['references'] is keyed by normalizeReference, the table is created only when absent, the first definition wins "
+             "and later ones go to duplicate_refs (REFKEY); normalizeReference trims, collapses blanks and applies a full case "
+             "fold (FOLD, RESUB); definition, link and image share the destination / title helpers and normalizeLink (SIB); the "
+             "recorded map of a definition obeys the map identity (MAP)",
+             [RF.rule_env, RF.rule_refkey, RF.rule_fold, RF.rule_resub, RF.rule_sib, MP.rule_map],
+             not_decided="that parsing with a seeded env equals parsing the prepended definitions (equality of two parses), that the "
+                         "reference form and the inline form yield equal tokens, and line counting inside multi-line titles"))
     # rules shared across properties (appended here because their modules are imported above)
     props["C11"].rules.append(SW.rule_fanout)          # the same coherence through the facade
     props["C14"].rules.append(SW.rule_fanout)          # reset_rules restores all four rulers with enableOnly
@@ -163,6 +172,9 @@ NOT_APPLICABLE["C06"] = ("a metamorphic relation between the parses of two diffe
                          "frames) are claimed under C07 and C17 instead")
 
 TECHNIQUE = {
+    "C16": "alias-chain check of the env object over the resolved call graph; reaching-definition check that every reference-table "
+           "key is a normalizeReference result; predicate dominance of the first-wins guard; transform-chain recognition of the "
+           "label normaliser; sibling agreement of the three destination / title consumers",
     "C10": "truth-table simulation of the chain-compilation loop; call-graph computation of token-kind producers against a "
            "reviewed table; edge-dominance of effects by trigger / option tests on per-function CFGs; sibling agreement of the "
            "facade's fan-out and of the option accessors",
